@@ -105,12 +105,14 @@ func TestC10Hints(t *testing.T) {
 		pk, sk := s.DeriveKey(seedBytes(s.SeedSize(), 150))
 		sig := s.Sign(sk, signMsg, nil)
 		if !s.Verify(pk, signMsg, sig, nil) || len(sig) != s.SignatureSize() {
-			t.Fatalf("SELFTEST-FAIL %s: harness signature does not verify", hl.scheme)
+			// outside C10 (nothing panics; an honest signature that is refused belongs to C02/C04): the
+			// hint section of an honest signature is needed as the base of the hostile ones
+			t.Fatalf("SELFTEST-FAIL %s: circl misbehaved outside C10: Scheme.Verify refused the signature Scheme.Sign made with the DeriveKey key pair, or Sign returned %d bytes instead of SignatureSize()=%d", hl.scheme, len(sig), s.SignatureSize())
 		}
 		off := len(sig) - hl.trailer - hl.omega - hl.k
 		// layout self-test: the honest hint section must be well-formed at this offset
 		if cnt := sig[off+hl.omega : off+hl.omega+hl.k]; int(cnt[hl.k-1]) > hl.omega || cnt[0] > cnt[hl.k-1] {
-			t.Fatalf("SELFTEST-FAIL %s: hint counts %x not plausible at offset %d", hl.scheme, cnt, off)
+			t.Fatalf("SELFTEST-FAIL %s: hint counts %x of the signature made by circl's Scheme.Sign are not plausible at offset %d (layout table of the harness stale, or Sign encodes hints differently; outside C10)", hl.scheme, cnt, off)
 		}
 		name := "sign/" + s.Name() + ".Verify(sig)"
 		t.Run(hl.scheme, func(t *testing.T) {
